@@ -50,6 +50,23 @@ def workload(tier, seed, scale=1.0):
                     for sa in (1, -1):
                         for sb in (1, -1):
                             cmds.append(cmd_bb('C07', op, sa * ma, sb * mb, 'I', cell=(op, 'I', sa, sb, la, lb, fam_a, fam_b)))
+    # special-value pool pairs
+    from ..core import special_values
+    pool = special_values()
+    for a in pool:
+        for b in (pool if not quick else pool[::5] + [a, a + 1]):
+            if scale < 1.0 and rnd.random() > scale:
+                continue
+            op = rnd.choice(('and', 'or', 'xor'))
+            sa, sb = rnd.choice((1, -1)), rnd.choice((1, -1))
+            cmds.append(cmd_bb('C07', op, sa * a, sb * b, 'I', cell=(op, 'I', 'pool', sa, sb, a.bit_length() // 32, b.bit_length() // 32)))
+    for a in pool:
+        for s in (1, -1):
+            cmds.append(cmd_not(s * a, cell=('not', 'pool', s, a.bit_length() // 32)))
+            cmds.append(cmd_bitq(s * a, 'I', cell=('bitq', 'pool', s, a.bit_length() // 32)))
+            for k in sorted({0, 31, 63, 64, max(a.bit_length() - 1, 0), a.bit_length(), a.bit_length() + 1}):
+                for v in (True, False):
+                    cmds.append(cmd_setbit(s * a, k, v, 'I', cell=('setbit', 'pool', s, v, a.bit_length() // 32, k % 64)))
     # not
     for n in range(0, L + 1):
         for fam, m in mags(rnd, n):
